@@ -1450,3 +1450,71 @@ Section HistorySteps.
     destruct (n <? K_MergeBlockNumber); [reflexivity|]. replace (n <? K_ShanghaiBlockNumber) with true by lia. reflexivity.
   Qed.
 End HistorySteps.
+
+(* ------------------------------------------------------------------ overlapping calls: the order does not matter *)
+Lemma get_summary_cache_ext cache l slot :
+  is_prefix cache l ->
+  get_historical_summary cache (Some (Ok l)) slot = get_historical_summary l (Some (Ok l)) slot.
+Proof.
+  intros [tl ->]. unfold get_historical_summary.
+  assert (La : nlen (cache ++ tl) = nlen cache + nlen tl) by (unfold nlen; rewrite app_length; lia). rewrite La.
+  destruct (N.ltb_spec (summary_index slot) (nlen cache)) as [L|G].
+  - replace (summary_index slot <? nlen cache + nlen tl) with true by lia.
+    destruct (idxN_ok cache _ L) as [a [E En]]. rewrite E. symmetry. apply idxN_of_nth.
+    rewrite nth_error_app1; [exact En|]. unfold nlen in L. lia.
+  - destruct (summary_index slot <? nlen cache + nlen tl); reflexivity.
+Qed.
+
+Section Overlap.
+  Variable H : bytes -> bytes -> bytes.
+
+  Definition oracle_extends (cache : list bytes) (o : option (res (list bytes))) : Prop :=
+    match o with Some (Ok l) => is_prefix cache l | _ => True end.
+
+  Lemma validate_cache_ext g epochs roots cache l n hash proof :
+    is_prefix cache l ->
+    validate_header_and_proof H g epochs roots cache (Some (Ok l)) n hash proof =
+    validate_header_and_proof H g epochs roots l (Some (Ok l)) n hash proof.
+  Proof.
+    intros P. unfold validate_header_and_proof.
+    destruct (n <? K_MergeBlockNumber); [reflexivity|]. destruct (n <? K_ShanghaiBlockNumber); [reflexivity|].
+    destruct (n <? K_CancunNumber).
+    - destruct (decode_post 13 11 proof) as [p| |]; cbn [bind]; try reflexivity.
+      unfold validate_capella_to_deneb, validate_summaries. now rewrite (get_summary_cache_ext _ _ _ P).
+    - destruct (decode_post 13 12 proof) as [p| |]; cbn [bind]; try reflexivity.
+      unfold validate_post_deneb, validate_summaries. now rewrite (get_summary_cache_ext _ _ _ P).
+  Qed.
+
+  (* the cache after a call is the cache before it or the oracle's list *)
+  Lemma step_cache_cases g epochs roots cache o n hash proof :
+    snd (validate_step H g epochs roots cache (o, n, hash, proof)) = cache \/
+    exists l, o = Some (Ok l) /\ snd (validate_step H g epochs roots cache (o, n, hash, proof)) = l.
+  Proof.
+    assert (S : forall ge p, snd (validate_summaries_st H ge cache o hash p) = cache \/
+                             exists l, o = Some (Ok l) /\ snd (validate_summaries_st H ge cache o hash p) = l).
+    { intros ge p. unfold validate_summaries_st.
+      destruct (lift_verdict (verify_exec H ge hash (pp_exec p) (pp_root p)) E_EXEC) as [[]| |]; cbn [snd]; try (left; reflexivity).
+      unfold get_historical_summary_st.
+      destruct (summary_index (pp_slot p) <? nlen cache); [left; reflexivity|].
+      destruct o as [[l|e|]|]; try (left; reflexivity).
+      destruct (summary_index (pp_slot p) <? nlen l); [right; exists l; split; reflexivity|left; reflexivity]. }
+    unfold validate_step.
+    destruct (n <? K_MergeBlockNumber); [left; reflexivity|]. destruct (n <? K_ShanghaiBlockNumber); [left; reflexivity|].
+    destruct (n <? K_CancunNumber).
+    - destruct (decode_post 13 11 proof) as [p| |]; try (left; reflexivity). apply S.
+    - destruct (decode_post 13 12 proof) as [p| |]; try (left; reflexivity). apply S.
+  Qed.
+
+  (* two calls that overlap see the same oracle answer o (an extension of the cache, an error, or no oracle): the verdict of the
+     second is the same whether it runs on the cache as it was or after the first has been through the provider - so for EVERY
+     interleaving of atomic provider accesses each verdict is validate_header_and_proof of the call's own inputs *)
+  Theorem overlapping_calls_order_independent g epochs roots cache o n1 hash1 proof1 n2 hash2 proof2 :
+    oracle_extends cache o ->
+    fst (validate_step H g epochs roots (snd (validate_step H g epochs roots cache (o, n1, hash1, proof1))) (o, n2, hash2, proof2)) =
+    fst (validate_step H g epochs roots cache (o, n2, hash2, proof2)).
+  Proof.
+    intros Ho. rewrite !validate_step_verdict.
+    destruct (step_cache_cases g epochs roots cache o n1 hash1 proof1) as [E|[l [-> E]]]; rewrite E; [reflexivity|].
+    symmetry. apply validate_cache_ext. exact Ho.
+  Qed.
+End Overlap.
